@@ -151,6 +151,8 @@ def make_param(interp: Interp, st: St, name, kind):
     if kind == "iterD":
         t = ctx.fresh_val(name + "_seq")
         return V("iter", SeqIter(t, elem_in_D=True), t=ctx.fresh_val(name))
+    if isinstance(kind, tuple) and kind[0] == "tuple":
+        return V("tuple", [make_param(interp, st, f"{name}{i}", k) for i, k in enumerate(kind[1])])
     if kind == "seqD":
         # a tuple/list of data of D of unknown length
         t = ctx.fresh_val(name)
@@ -314,6 +316,8 @@ def _run_instance(c, tree, mod, label, recv, rep, timeout_ms, lookup):
         spec_names.update({k_: v_ for k_, v_ in clo.env.items() if isinstance(v_, V)})
         for gn, gk in c.ghosts.items():
             spec_names[gn] = make_param(interp, s0, gn, gk)
+        for gn, gv in c.consts.items():
+            spec_names[gn] = const(gv)
         spec_names.update(params)
         env0 = SpecEnv(interp, s0, spec_names)
         for rq in c.requires:
